@@ -582,6 +582,27 @@ func (s *State) Forget(a Atom) {
 }
 
 func (s *State) dropLC(a Atom) {
+	// before the congruences that mention a disappear, eliminate a between pairs of them
+	// (E1 ≡ 0 mod M1, E2 ≡ 0 mod M2, unit coefficients of a  =>  E1 -/+ E2 ≡ 0 mod gcd(M1,M2))
+	var with []LinCong
+	for _, l := range s.lc {
+		if k := l.E.Coef(a); k == 1 || k == -1 {
+			with = append(with, l)
+		}
+	}
+	var derived []LinCong
+	if len(with) >= 2 && len(with) <= 6 {
+		for i := 0; i < len(with); i++ {
+			for j := i + 1; j < len(with); j++ {
+				ki, kj := with[i].E.Coef(a), with[j].E.Coef(a)
+				e := with[i].E.AddMul(with[j].E, -ki*kj)
+				m := gcd(with[i].M, with[j].M)
+				if !e.Bad && m > 1 && len(e.T) > 0 && e.Coef(a) == 0 {
+					derived = append(derived, LinCong{Lin{C: modpos(e.C, m), T: e.T}, m})
+				}
+			}
+		}
+	}
 	out := s.lc[:0]
 	for _, l := range s.lc {
 		if l.E.Coef(a) == 0 && !l.E.Bad {
@@ -589,6 +610,21 @@ func (s *State) dropLC(a Atom) {
 		}
 	}
 	s.lc = out
+	for _, d := range derived {
+		dup := false
+		for _, l := range s.lc {
+			if l.M == d.M && l.E.Equal(d.E) {
+				dup = true
+			}
+		}
+		if !dup && len(s.lc) < 32 {
+			if len(d.E.T) == 1 && (d.E.T[0].K == 1 || d.E.T[0].K == -1) {
+				s.addCong(d.E.T[0].A, Cong{d.M, modpos(-d.E.T[0].K*d.E.C, d.M)})
+			} else {
+				s.lc = append(s.lc, d)
+			}
+		}
+	}
 }
 
 // AddLCong records e ≡ 0 (mod m).
